@@ -64,11 +64,49 @@ fn duplicate() -> String {
     format!("[A]={} [A,A]={}", r1, r2)
 }
 
+/// signer-side won set vs the set of indices the single-signature verifier accepts one by one (same draw, same
+/// phi_f, same registered stake, same total stake): the two must coincide.
+fn sign_vs_verify() -> String {
+    let params = Parameters { m: 400, k: 50, phi_f: 0.2 };
+    let stakes = [5u64, 495, 500];
+    let mut rng = ChaCha20Rng::from_seed([7u8; 32]);
+    let mut key_reg = KeyRegistration::initialize();
+    let mut inits = Vec::new();
+    for stake in stakes {
+        let p = Initializer::new(params, stake, &mut rng);
+        let entry = RegistrationEntry::new(p.get_verification_key_proof_of_possession_for_concatenation(), p.stake).unwrap();
+        key_reg.register_by_entry(&entry).unwrap();
+        inits.push(p);
+    }
+    let closed = key_reg.close_registration(&params).unwrap();
+    let vk = inits[0].get_verification_key_proof_of_possession_for_concatenation().vk;
+    let signer: Signer<D> = inits[0].clone().try_create_signer::<D>(&closed).unwrap();
+    let avk = Clerk::new_clerk_from_signer(&signer).compute_aggregate_verification_key();
+    let found = (0u64..10_000).find_map(|c| {
+        let msg = c.to_le_bytes();
+        signer.create_single_signature(&msg).ok().map(|s| (msg, s))
+    });
+    let (msg, honest) = match found {
+        Some(x) => x,
+        None => return "no-winning-message".to_string(),
+    };
+    let won = honest.get_concatenation_signature_indices();
+    let accepted: Vec<u64> = (0..params.m)
+        .filter(|&i| {
+            let mut c = honest.clone();
+            c.set_concatenation_signature_indices(&[i]);
+            c.verify(&params, &vk, &stakes[0], &avk, &msg).is_ok()
+        })
+        .collect();
+    format!("{} signer_won={:?} verifier_accepts={} indices", if won == accepted { "agree" } else { "disagree" }, won, accepted.len())
+}
+
 fn main() {
     let a: Vec<String> = std::env::args().skip(1).collect();
     let out = match a.first().map(|s| s.as_str()) {
         Some("index_at_m") => index_at_m(),
         Some("duplicate") => duplicate(),
+        Some("sign_vs_verify") => sign_vs_verify(),
         _ => "unknown-query".to_string(),
     };
     println!("{}", out);
